@@ -57,6 +57,7 @@ REGISTRY = {
         "tests": [
             {"name": "TestC06Replies", "shards": 8, "shards_thorough": 16},
             {"name": "TestC06Coincidences", "shards": 8, "shards_thorough": 16, "crash_is_violation": True},
+            {"name": "TestC06QueueFullT3", "shards": 4, "shards_thorough": 16, "crash_is_violation": True},
         ],
         "require": {"c06:drop:early": 113, "c06:drop:mid": 115, "c06:drop:none": 564, "c06:outcome:closed": 71, "c06:outcome:ctx": 156, "c06:outcome:reject": 237, "c06:outcome:reply": 746, "c06:outcome:t3": 132, "c06:policy:abort": 164, "c06:policy:collide-control": 330, "c06:policy:collide-primary": 165, "c06:policy:dup": 249, "c06:policy:dup-late": 197, "c06:policy:late": 188, "c06:policy:none": 193, "c06:policy:reject": 195, "c06:policy:reply": 577, "c06:policy:unsolicited": 157, "c06:slow-write": 150, "c06c:role:active": 794, "c06c:role:passive": 805},
     },
